@@ -23,9 +23,9 @@ AMBIENT_OK = {
         "backtrace of an internal error is only printed under RUST_BACKTRACE; not part of normal diagnostics",
     ("cli_def::wrap_exit_code", "std::backtrace::Backtrace::status"): "same (debug aid)",
     ("mapfile::Mapfile::decomp_map_file_from_env", "std::env::var_os"): "TRUTH_MAP_PATH is a documented input of the command",
-    ("mapfile::Mapfile::decomp_map_file_from_env::{closure#1}", "std::env::split_paths"): "splits TRUTH_MAP_PATH (documented input)",
+    ("mapfile::Mapfile::decomp_map_file_from_env", "std::env::split_paths"): "splits TRUTH_MAP_PATH (documented input)",
     ("cli_def::main", "std::env::args"): "command line = the input",
-    ("cli_def::cli::extract_outdir::{closure#0}::{closure#0}", "std::env::current_dir"): "only to print a relative path in a message; cwd is part of the command's environment",
+    ("cli_def::cli::extract_outdir", "std::env::current_dir"): "only to print a relative path in a message; cwd is part of the command's environment",
     ("io::nice_or_bust", "std::env::current_dir"): "display form of paths relative to cwd (input of the command)",
     ("<llir::lower::Lowerer<'_> as core::ops::drop::Drop>::drop", "std::thread::functions::panicking"): "panic-bomb guard; no output",
     ("setup_for_test_harness", "std::env::set_var"): "test harness hook (never called by the binaries)",
@@ -69,9 +69,10 @@ def run(db, tier):
             c = t.get("f", "")
             if AMBIENT.match(c):
                 cnt += 1
-                key = "%s|%s" % (f.id, c)
+                rid = re.sub(r"(::\{closure#\d+\})+$", "", f.id)     # closures are attributed to the containing function
+                key = "%s|%s" % (rid, c)
                 n[key] = n.get(key, 0) + 1
-                reason = AMBIENT_OK.get((f.id, c))
+                reason = AMBIENT_OK.get((rid, c))
                 rep.check(reason is not None and n[key] == 1, "R-AMBIENT", "%s|%d" % (key, n[key]), "%s:%d" % (f.file, t["ln"]),
                           detail_ok=reason or "", detail_bad="call of %s is not an audited ambient-state site" % c)
         for b in f.blocks:
